@@ -64,6 +64,17 @@ Theorem C16_later_files_unaffected :
 Proof. intros. rewrite (history_independent c16_policy input reports run_from leftover c16_policy_ok). reflexivity. Qed.
 Print Assumptions C16_later_files_unaffected.
 
+(* filters, Do() handlers and Report callbacks run between the walker's writes of the flag; the theorems above are about
+   the walk, so nothing else may touch the flag or walk with the same parameters: one walk per run (started by
+   rulesRunner.run), no recover() in the package (a walk that a panic leaves early -- the walker restores the flag with
+   plain statements -- is never carried on with), no assignment to the parameters as a whole, no write to deadcode /
+   currentFunc outside astWalker.walk.  All four are read from the sources of package ruleguard on this run. *)
+Theorem C16_only_the_walk_of_the_run_touches_the_flag :
+  strs_eqb gen_walker_entry_sites ["runner.go:rulesRunner.run:Walk"; "runner.go:rulesRunner.run:var"]%string = true /\
+  gen_recover_sites = [] /\ gen_params_whole_writes = [] /\ gen_ctx_writes_outside_walker = [].
+Proof. vm_compute. auto. Qed.
+Print Assumptions C16_only_the_walk_of_the_run_touches_the_flag.
+
 (* ---- non-vacuity: a well-formed tree with a constant `if`; all three regimes occur ----
    func f() { if C { a(9,10) } else { b(12,13) }; c(14,15) } *)
 Definition dead_ids (c : option bool) : list N :=
@@ -88,3 +99,12 @@ Example c16_mutant_rejected :
      AWalk gen_f_Body; AWalk gen_f_Else]
     (spec_of 0 gen_f_Body gen_f_Else 99 (fun _ => Some 1%N) (fun _ => [(gen_f_Cond, false); (gen_f_Body, false); (gen_f_Else, false)]) 0) = false.
 Proof. vm_compute. reflexivity. Qed.
+(* what a handler or a filter that touches the flag amounts to: an action behind the visit of the node's case.  A Do()
+   handler that starts from "clean" parameters (flag cleared) at an `if`, a Contains() search that leaves the flag set at
+   an expression statement: the case bodies REGENERATED on this run, with that action inserted, fail the finite
+   obligation the theorems rest on *)
+Example c16_effect_inside_a_visit_rejected :
+  kind_ok AF gen_frame (with_effect (ASetDead BFalse) (gen_table gen_k_IfStmt)) (gen_spec gen_k_IfStmt) = false /\
+  kind_ok AF gen_frame (with_effect (ASetDead BTrue) (gen_table (kidx "ExprStmt"))) (gen_spec (kidx "ExprStmt")) = false /\
+  kind_ok AF gen_frame (with_effect (ALetLocal BDead) (gen_table gen_k_IfStmt)) (gen_spec gen_k_IfStmt) = true.
+Proof. vm_compute. auto. Qed.
